@@ -151,14 +151,22 @@ def run_case(c):
             s.play_Note(Note("C", 4)); s.control_change(1, 7, 100); s.stop_Note(Note("C", 4))
             p1 = {"hook": list(s.log), "a": list(a.log), "b": list(b.log)}
             s.log, a.log, b.log = [], [], []
-            s.detach(a)
+            s.detach(a)          # ONE detach after two attaches: delivery to A stops
             n2 = len(s.listeners)
-            s.detach(a)
-            n3 = len(s.listeners)
             s.play_NoteContainer(NoteContainer(["E", "G"])); s.set_instrument(2, 40); s.stop_NoteContainer(NoteContainer(["E", "G"]))
             p2 = {"hook": list(s.log), "a": list(a.log), "b": list(b.log)}
+            s.detach(a)          # detaching what is not attached changes nothing
+            n3 = len(s.listeners)
             return {"p1": p1, "p2": p2, "listeners": [n1 - 1, n1, n3] if False else [1 if n1 == 2 else 0, n1, n3]}
         R.append(call("observers", {}, f))
+    elif k == "ccfrac":
+        # numbers that are no integers, given as fractions num/den: outside 0..128 they must be refused like integers are
+        for cn, cd, vn, vd in c["grid"]:
+            def f():
+                s, o = session(120)
+                ret = s.control_change(3, cn / cd if cd != 1 else cn, vn / vd if vd != 1 else vn)
+                return {"ret": boolean(ret), "events": s.log, "observer": o.log}
+            R.append(call("cc_fraction", {"channel": 3, "cn": cn, "cd": cd, "vn": vn, "vd": vd}, f))
     elif k == "cc":
         for control, value in c["grid"]:
             def f():
